@@ -159,7 +159,8 @@ PROPS['C11'] = {
     'explanation': 'Proved for every text, default, mode and tract setting (C11_forced, C11_forced_plssdesc): a forced copy_all layout yields exactly one tract whose description is the whole preprocessed text; '
                    'the same holds for the DEDUCED fallback (C11_deduced): whenever no Twp/Rge or no section word can be found in the preprocessed text, the layout is copy_all and there is exactly one whole-text tract; '
                    'the three channels reach the parser (effective layout = keyword else attribute); every chunk yields at least one tract component, the stand-in stages the whole chunk exactly once. '
-                   'Refuted sub-claim (known finding): the chunk-level fallback tract is cleaned at its edges. The error flag of a fallback and "never two whole-text tracts" are decided on each run by the oracle. ' + _PLSS_TIE,
+                   'such a fallback carries the twprge_error flag whenever no Twp/Rge, or no section, can be matched (C11_fallback_error_flag: the single tract then has an error TRS, by the dictionary theorems of C12). '
+                   'Refuted sub-claim (known finding): the chunk-level fallback tract is cleaned at its edges. "Never two whole-text tracts" is decided on each run by the oracle. ' + _PLSS_TIE,
 }
 PROPS['C20'] = {
     'group': 'plss', 'level': 'proof', 'build_timeout': 2400,
